@@ -82,10 +82,24 @@ def make_variant(exp, r, g, kind):
     rows = []
     for j in range(1, 3):
       for gid, grp in zip(geos['geo'], geos['group']):
-        rows.append((first - pd.Timedelta(days=j), gid, grp, -1, float(g.normal(70, 5)), 0.5))
+        rows.append((earlier(first, j), gid, grp, -1, float(g.normal(70, 5)), 0.5))
     out = pd.concat([out, pd.DataFrame(rows, columns=BASE_COLS)], ignore_index=True)
     return out.sample(frac=1.0, random_state=r.randrange(1 << 30)).reset_index(drop=True)
   raise KeyError(kind)
+
+
+def earlier(d, j):
+  """A date label j days before d, in d's own label format."""
+  import datetime as _dt
+  if isinstance(d, pd.Timestamp):
+    return d - pd.Timedelta(days=j)
+  if isinstance(d, _dt.date):
+    return d - _dt.timedelta(days=j)
+  if isinstance(d, str):
+    return (_dt.date.fromisoformat(d) - _dt.timedelta(days=j)).isoformat()
+  if isinstance(d, int) and d > 10000000:
+    return int((_dt.datetime.strptime(str(d), '%Y%m%d').date() - _dt.timedelta(days=j)).strftime('%Y%m%d'))
+  return d - j
 
 
 def run_case(spec):
@@ -98,7 +112,8 @@ def run_case(spec):
     extras.add('gap')
   if r.random() < 0.25:
     extras.add('after')
-  exp = gen.gen_experiment(r, g, extras=extras, cost_mode='variable')
+  exp = gen.gen_experiment(r, g, extras=extras, cost_mode='variable', int_dtype=(10 ** 6 if spec['idx'] % 9 == 4 else None),
+                           date_style={3: 'int0', 5: 'yyyymmdd', 6: 'iso', 10: 'date'}.get(spec['idx'] % 11))
   frame = exp['frame']
   use_cool = r.random() < 0.6
   counters = collections.Counter()
